@@ -1,4 +1,1816 @@
 package main
 
-// genStrSer: placeholder until the translation of this part of the library is written (an empty generated file).
-func genStrSer() string { return "" }
+// Translation of the byte-level string functions of internal/strings (serialize.go: AppendQuotedString,
+// convert.go: QuotedBytes, ToUpper; match.go: trimPercent, NewMatcher) into Gallina (coq/Gen/GenStrSer.v, tie T1
+// for C14 / C09 / C06 / C18).
+//
+// The functions listed in gqSpecs are translated statement by statement into definitions gst_<name>.
+// coq/Proofs/GenStrSerProofs.v proves every generated definition equal to the hand-written model the engines
+// execute (Model/Json.v append_quoted_string / quoted_bytes, Model/Match.v to_upper / trim_percent / new_matcher)
+// for all byte strings, all buffers, all rune maps, all strings.ToUpper / regexp.Compile and all sufficient fuel, so that an edit of these Go functions changes the generated
+// text and breaks a named theorem T1_strings_<name> of coq/Properties/T1Strings.v, while the theorems of C14 /
+// C18 keep talking about the model.
+//
+// THE SCHEME (anything that does not fit is reported through problem(...); the block then keeps the text of the
+// golden copy, marked FALLBACK, so that the development still builds — the exit status says the tie is broken).
+//
+//	strings     string and []byte are both the Coq type bytes = list N: the VALUE of the byte sequence.  What is
+//	and slices  abstracted: capacity (a slice expression beyond len is a Panic here where Go allows it up to cap;
+//	            append always yields the extended value), aliasing (the string ToUpper returns shares memory with
+//	            the buffer: the translation returns its value at the time of return), and nil-ness: nil is [],
+//	            and x == nil is translated as emptiness gst_isnil x (exact as long as no empty non-nil slice
+//	            reaches such a test; GenStrSerProofs.v proves that every value assigned to the tested variable
+//	            has at least utf8.UTFMax elements).
+//	              len(x) -> gst_len x; x[i] -> gst_index x i; x[a:b], x[a:], x[:b] -> gst_slice / _from / _to
+//	              (Panic outside 0 <= a <= b <= len); x[i] = v -> gst_store x i v; make([]byte, n [, c]) -> gst_make n c
+//	              append(x, b) -> x ++ [b]; append(x, y...) -> x ++ y; a string literal -> the list of its bytes;
+//	              n = copy(dst, src) -> n := gst_copy_n dst src, dst := gst_copy dst src;
+//	              a package level string constant (chars) -> Definition gst_c_<name>, generated from its literal.
+//	pointers    an argument of type *[]byte is the value of the slice behind it, threaded through: *p reads it,
+//	            *p = e replaces it, and its final value is answered after the results of the function.
+//	numbers     int -> Z, exact (a position or a length; overflow of int is outside the translation as it is
+//	            outside the model); rune -> Z (int32; it is only compared, masked, shifted right, converted and
+//	            handed to the vocabulary, + - * on a rune or byte is rejected because it would have to wrap);
+//	            byte -> N (the element type of bytes); an untyped constant takes the type of the other operand;
+//	            byte(r) -> gst_byte r = r mod 256; a byte used as an index -> Z.of_N; x > y is (y <? x).
+//	library     the vocabulary is the project's model of unicode/utf8 (Model/Utf8.v, itself checked against the
+//	            real package by the strings engine) and an ARBITRARY rune map for unicode.ToUpper:
+//	              utf8.RuneSelf / RuneError / UTFMax     -> rune_self / rune_error / utf_max
+//	              r, w := utf8.DecodeRuneInString(x)     -> gst_DecodeRuneInString x = decode_rune x (as Z * Z)
+//	              n += utf8.EncodeRune(b[off:], r)       -> b := gst_encode_at b off r (the bytes encode_rune r
+//	                                                        written at off; Panic when they do not fit),
+//	                                                        n := n + gst_encode_n r
+//	              utf8.RuneLen(r)                        -> rune_len r
+//	              for i, c := range x                    -> the list gst_range x = range_string x of (offset, rune)
+//	              unicode.ToUpper(c)                     -> upper c          (upper : Z -> Z, a section variable)
+//	              UnsafeBytesToString(x)                 -> x                (its body is compared with the text
+//	                                                                          this stands for)
+//	strings,    strings.HasPrefix / HasSuffix -> has_prefix / has_suffix and regexp.QuoteMeta -> quote_meta of
+//	regexp      Model/Match.v; strings.TrimPrefix / TrimSuffix -> gst_TrimPrefix / gst_TrimSuffix (preamble);
+//	            a + b on strings -> a ++ b; a == b -> bytes_eqb a b; strings.ToUpper(x) -> str_upper x (an
+//	            ARBITRARY function, a section variable); r, err := regexp.Compile(x) -> r := x (a *regexp.Regexp is
+//	            the text it was compiled from), err := negb (re_compile x) with re_compile : bytes -> bool
+//	            ARBITRARY; err != nil -> err.
+//	structs     &T{f: e, ..} where T is (a chain of `type T U` ending in) a struct of string / []byte /
+//	            *regexp.Regexp fields -> the constructor gst_T e .. of the inductive gst_Matcher, which is generated
+//	            from the type declarations of the literals met (all fields must be given, declaration order).
+//	errors      a function with results (Matcher, error): return x, nil -> Ok x; return nil,
+//	            qerrors.Propagate(.., err) -> Fail (Propagate answers a struct value, never nil).
+//	results     every function takes (fuel : nat) first, then its arguments, and answers
+//	            outcome (r1 * .. * rn * p1 * ..) — results, then the final values behind its pointer arguments.
+//	            Panic = Go panic OR fuel used up.
+//	fuel        gst_f fuel .. = match fuel with O => Panic | S fuel' => body end.  Inside body every three-clause
+//	            for loop is entered with the budget fuel' (each entry afresh), every call of a translated function
+//	            gets fuel'.  Range loops are structural and use no fuel.
+//	statements  x := e; var x int; var x []byte; x = e; x op= e; x++; x--; a, b := f(..)   -> let .. in / do .. <- ..;
+//	            an operation that can panic (index, slice, make, a call) is evaluated first: do tN <- ..;
+//	conditions  && and || are the boolean operators; an operation that can panic may not stand to their right.
+//	if          when no branch leaves the statement (no break / continue / return inside):
+//	              do (assigned outer variables) <- (if c then ..; Ok (..) else ..; Ok (..)); rest
+//	            otherwise the rest of the block is continued inside the branches that fall through.
+//	switch      switch x { case a, b: .. default: .. } on a variable with constant cases (default last, no
+//	            fallthrough, no break) is the chain if x == a || x == b { .. } else if .. else { default }.
+//	for         for init; cond; post { body }: the init statement, then a Fixpoint gst_f_loopN over its own
+//	            counter k (O => Panic), numbered in order of completion, taking [fuel'] k and the variables it
+//	            mentions, answering the outer variables it assigns:
+//	              S k' => if cond then body; post; gst_f_loopN .. k' (current values) else Ok (those)
+//	            continue = post; recursive call.  break = Ok (those).
+//	range       for i, c := range X { body }: a Fixpoint gst_f_loopN over l = gst_range X (evaluated once, as Go
+//	            does: assigning to the ranged variable inside the body does not change the iteration), structural:
+//	              [] => Ok (those) | (v_i, v_c) :: l' => body; gst_f_loopN l' (current values)
+//	            i and c are fresh per iteration (assigning to them is local, as in Go).
+//	rejected    return inside a loop, goto, labels, defer, closures, shadowing, maps, structs, everything else.
+
+import (
+	"bytes"
+	"flag"
+	"fmt"
+	"go/ast"
+	"go/printer"
+	"go/token"
+	"math/big"
+	"os"
+	"path/filepath"
+	"strconv"
+	"strings"
+)
+
+const gqPkg = "internal/strings"
+
+// in dependency order (a callee before its callers)
+var gqSpecs = []string{"AppendQuotedString", "QuotedBytes", "ToUpper", "trimPercent", "NewMatcher"}
+
+// the text the fixed vocabulary stands for (bodies printed by go/printer)
+var gqVocabulary = map[string]string{
+	"UnsafeBytesToString": "{\n\treturn unsafe.String(unsafe.SliceData(in), len(in))\n}",
+}
+
+const gqPreamble = `(* GENERATED by tools/qf2coq (strser.go) from internal/strings/serialize.go, convert.go and match.go of
+   tobgu/qframe — do not edit.  One definition gst_<function> per translated Go function, one Fixpoint gst_<function>_loopN per
+   loop; the scheme is described at the top of tools/qf2coq/strser.go.  string and []byte are bytes (the value;
+   capacity and aliasing are abstracted, nil is []), int and rune are Z, byte is N; unicode/utf8 is the model
+   of Model/Utf8.v, unicode.ToUpper the arbitrary rune map upper; a *[]byte argument is the value behind it,
+   answered last; strings.ToUpper is the arbitrary str_upper, regexp.Compile(x) succeeds iff re_compile x, the
+   structs NewMatcher builds are the constructors of gst_Matcher; every function takes fuel first: O => Panic, S fuel' => the body, whose for loops and calls
+   all get fuel' (range loops are structural). *)
+From QF Require Import Base.Prelude Model.Utf8 Model.Match.
+Local Open Scope Z_scope.
+
+(* len(x), x[i], x[a:b], x[a:], x[:b] *)
+Definition gst_len (s : bytes) : Z := Z.of_nat (length s).
+Definition gst_index (s : bytes) (i : Z) : outcome N :=
+  if i <? 0 then Panic else idx s (Z.to_nat i).
+Definition gst_slice (s : bytes) (lo hi : Z) : outcome bytes :=
+  if (0 <=? lo) && (lo <=? hi) && (hi <=? gst_len s)
+  then Ok (firstn (Z.to_nat (hi - lo)) (skipn (Z.to_nat lo) s)) else Panic.
+Definition gst_slice_from (s : bytes) (lo : Z) : outcome bytes :=
+  if (0 <=? lo) && (lo <=? gst_len s) then Ok (skipn (Z.to_nat lo) s) else Panic.
+Definition gst_slice_to (s : bytes) (hi : Z) : outcome bytes :=
+  if (0 <=? hi) && (hi <=? gst_len s) then Ok (firstn (Z.to_nat hi) s) else Panic.
+(* x == nil, make([]byte, n, c), x[i] = v, copy(dst, src): the new dst and the number of bytes copied *)
+Definition gst_isnil (s : bytes) : bool := match s with [] => true | _ :: _ => false end.
+Definition gst_make (n c : Z) : outcome bytes :=
+  if (n <? 0) || (c <? n) then Panic else Ok (repeat 0%N (Z.to_nat n)).
+Definition gst_store (b : bytes) (i : Z) (v : N) : outcome bytes :=
+  if (0 <=? i) && (i <? gst_len b) then Ok (set_nth b (Z.to_nat i) v) else Panic.
+Definition gst_copy (dst src : bytes) : bytes :=
+  let n := Nat.min (length dst) (length src) in firstn n src ++ skipn n dst.
+Definition gst_copy_n (dst src : bytes) : Z := Z.of_nat (Nat.min (length dst) (length src)).
+(* byte(x) *)
+Definition gst_byte (x : Z) : N := Z.to_N (x mod 256).
+(* utf8.DecodeRuneInString(x); utf8.EncodeRune(b[off:], r): the new b and the number of bytes written;
+   for i, c := range x *)
+Definition gst_DecodeRuneInString (s : bytes) : Z * Z :=
+  let rw := decode_rune s in (Z.of_N (fst rw), Z.of_nat (snd rw)).
+Definition gst_encode_at (b : bytes) (off r : Z) : outcome bytes :=
+  do p <- gst_slice_from b off;
+  let d := encode_rune r in
+  if (length d <=? length p)%nat then Ok (firstn (Z.to_nat off) b ++ d ++ skipn (length d) p) else Panic.
+Definition gst_encode_n (r : Z) : Z := Z.of_nat (length (encode_rune r)).
+Definition gst_range (s : bytes) : list (Z * Z) :=
+  map (fun p => (Z.of_nat (fst p), Z.of_N (snd p))) (range_string s).
+(* strings.TrimPrefix, strings.TrimSuffix (strings.HasPrefix / HasSuffix and regexp.QuoteMeta are has_prefix /
+   has_suffix / quote_meta of Model/Match.v; x == y on strings is bytes_eqb) *)
+Definition gst_TrimPrefix (s p : bytes) : bytes := if has_prefix s p then skipn (length p) s else s.
+Definition gst_TrimSuffix (s p : bytes) : bytes :=
+  if has_suffix s p then firstn (length s - length p) s else s.
+
+`
+
+// kinds: "int" "rune" (Z), "byte" (N), "bool", "bytes", "ptr" (a *[]byte argument), "const" (untyped number),
+// "nil"
+type gqVar struct {
+	name string
+	kind string
+}
+
+type gqVal struct {
+	text string // Z text for int / rune / const, N text for byte, the term for bool / bytes
+	ntxt string // const only: the N text
+	kind string
+}
+
+type gqFunc struct {
+	goName  string
+	coq     string
+	fd      *ast.FuncDecl
+	params  []gqVar
+	results []string // kinds
+	ptrs    []string // Go names of the pointer arguments
+	errRes  bool     // the last result is an error: return x, nil -> Ok x; return nil, e -> Fail
+	done    bool
+	ok      bool
+	text    string
+}
+
+var gqFuncs = map[string]*gqFunc{}
+
+// package level string constants used: name -> literal value (emitted as gst_c_<name>)
+var gqConstsUsed []string
+var gqConstText = map[string]string{}
+
+// the struct types behind the Matcher implementations that composite literals build: constructor name ->
+// field names in declaration order (gst_Matcher is generated from them)
+var gqMatcherTypes []string
+var gqMatcherFields = map[string][]string{}
+
+// structFields resolves type T (through `type T U` chains) to the fields of its struct.
+func (t *gqTr) structFields(name string) ([]string, bool) {
+	for depth := 0; depth < 8; depth++ {
+		var spec *ast.TypeSpec
+		for _, f := range t.p.files {
+			for _, d := range f.Decls {
+				gd, ok := d.(*ast.GenDecl)
+				if !ok || gd.Tok != token.TYPE {
+					continue
+				}
+				for _, sp := range gd.Specs {
+					if ts := sp.(*ast.TypeSpec); ts.Name.Name == name {
+						spec = ts
+					}
+				}
+			}
+		}
+		if spec == nil {
+			return nil, false
+		}
+		switch u := spec.Type.(type) {
+		case *ast.Ident:
+			name = u.Name
+		case *ast.StructType:
+			var out []string
+			for _, fl := range u.Fields.List {
+				ty := t.src(fl.Type)
+				if ty != "string" && ty != "[]byte" && ty != "*regexp.Regexp" {
+					return nil, false
+				}
+				for _, n := range fl.Names {
+					out = append(out, n.Name)
+				}
+			}
+			return out, len(out) > 0
+		default:
+			return nil, false
+		}
+	}
+	return nil, false
+}
+
+type gqCtx struct {
+	vars   []gqVar
+	brk    func() string
+	cont   func() string
+	ret    func(res []gqVal) string
+	inLoop bool
+}
+
+type gqTr struct {
+	p     *pkgInfo
+	f     *gqFunc
+	loops []string
+	bad   bool
+	ntmp  int
+}
+
+func (t *gqTr) fail(n ast.Node, format string, a ...interface{}) {
+	pos := ""
+	if n != nil {
+		pos = t.p.fset.Position(n.Pos()).String() + ": "
+	}
+	problem("internal/strings translation, function %s: %s%s", t.f.goName, pos, fmt.Sprintf(format, a...))
+	t.bad = true
+}
+
+func (t *gqTr) src(n ast.Node) string {
+	var b bytes.Buffer
+	printer.Fprint(&b, t.p.fset, n)
+	return b.String()
+}
+
+func (c gqCtx) lookup(name string) (gqVar, bool) {
+	for _, v := range c.vars {
+		if v.name == name {
+			return v, true
+		}
+	}
+	return gqVar{}, false
+}
+
+func gqCoqType(kind string) string {
+	switch kind {
+	case "int", "rune":
+		return "Z"
+	case "byte":
+		return "N"
+	case "bool", "error":
+		return "bool"
+	case "matcher":
+		return "gst_Matcher"
+	}
+	return "bytes"
+}
+
+func gqBytesLit(s string) string {
+	if len(s) == 0 {
+		return "([] : bytes)"
+	}
+	var parts []string
+	for i := 0; i < len(s); i++ {
+		parts = append(parts, fmt.Sprintf("%d%%N", s[i]))
+	}
+	return "[" + strings.Join(parts, "; ") + "]"
+}
+
+func gqConst(v *big.Int) gqVal {
+	if v.Sign() < 0 {
+		return gqVal{text: "(" + v.String() + ")", ntxt: "", kind: "const"}
+	}
+	return gqVal{text: v.String(), ntxt: v.String() + "%N", kind: "const"}
+}
+
+func gqIsNum(k string) bool { return k == "int" || k == "rune" || k == "byte" || k == "const" }
+
+// ------------------------------------------------------------------ syntactic analyses
+
+// escapes: the statement contains a return, or a break / continue that leaves the statement itself.
+func gqEscapes(n ast.Node) bool {
+	found := false
+	var walk func(n ast.Node)
+	walk = func(n ast.Node) {
+		ast.Inspect(n, func(m ast.Node) bool {
+			switch x := m.(type) {
+			case *ast.ReturnStmt:
+				found = true
+			case *ast.BranchStmt:
+				found = true
+			case *ast.ForStmt:
+				if m != n {
+					if gqContainsReturn(x) {
+						found = true
+					}
+					return false
+				}
+			case *ast.RangeStmt:
+				if m != n {
+					if gqContainsReturn(x) {
+						found = true
+					}
+					return false
+				}
+			case *ast.FuncLit:
+				return false
+			}
+			return true
+		})
+	}
+	walk(n)
+	return found
+}
+
+func gqContainsReturn(n ast.Node) bool {
+	found := false
+	ast.Inspect(n, func(m ast.Node) bool {
+		if _, ok := m.(*ast.ReturnStmt); ok {
+			found = true
+		}
+		return true
+	})
+	return found
+}
+
+func gqIsCall(e ast.Expr, pkg, name string) (*ast.CallExpr, bool) {
+	ce, ok := e.(*ast.CallExpr)
+	if !ok {
+		return nil, false
+	}
+	if pkg == "" {
+		id, ok := ce.Fun.(*ast.Ident)
+		return ce, ok && id.Name == name
+	}
+	se, ok := ce.Fun.(*ast.SelectorExpr)
+	if !ok {
+		return nil, false
+	}
+	id, ok := se.X.(*ast.Ident)
+	return ce, ok && id.Name == pkg && se.Sel.Name == name
+}
+
+// encodeTarget: utf8.EncodeRune(B[off:], r) -> (B, off, r)
+func gqEncodeCall(e ast.Expr) (buf *ast.Ident, off ast.Expr, r ast.Expr, ok bool) {
+	ce, is := gqIsCall(e, "utf8", "EncodeRune")
+	if !is || len(ce.Args) != 2 {
+		return nil, nil, nil, false
+	}
+	sl, is := ce.Args[0].(*ast.SliceExpr)
+	if !is || sl.Low == nil || sl.High != nil || sl.Slice3 {
+		return nil, nil, nil, false
+	}
+	id, is := sl.X.(*ast.Ident)
+	if !is {
+		return nil, nil, nil, false
+	}
+	return id, sl.Low, ce.Args[1], true
+}
+
+// assigned: the Go names assigned (not declared) below n.
+func gqAssigned(n ast.Node) map[string]bool {
+	names := map[string]bool{}
+	target := func(l ast.Expr) {
+		switch y := l.(type) {
+		case *ast.Ident:
+			names[y.Name] = true
+		case *ast.StarExpr:
+			if id, ok := y.X.(*ast.Ident); ok {
+				names[id.Name] = true
+			}
+		case *ast.IndexExpr:
+			if id, ok := y.X.(*ast.Ident); ok {
+				names[id.Name] = true
+			}
+		}
+	}
+	ast.Inspect(n, func(m ast.Node) bool {
+		switch x := m.(type) {
+		case *ast.AssignStmt:
+			if x.Tok != token.DEFINE {
+				for _, l := range x.Lhs {
+					target(l)
+				}
+			}
+		case *ast.IncDecStmt:
+			target(x.X)
+		case *ast.CallExpr:
+			if ce, ok := gqIsCall(x, "", "copy"); ok && len(ce.Args) == 2 {
+				target(ce.Args[0])
+			}
+			if b, _, _, ok := gqEncodeCall(x); ok {
+				names[b.Name] = true
+			}
+		}
+		return true
+	})
+	return names
+}
+
+// ------------------------------------------------------------------ expressions
+
+func (t *gqTr) tmp() string {
+	t.ntmp++
+	return fmt.Sprintf("t%d", t.ntmp)
+}
+
+// asZ: the value as a Z term (a byte is converted: only where the caller allows it)
+func (t *gqTr) asZ(n ast.Node, v gqVal, allowByte bool) string {
+	switch v.kind {
+	case "int", "rune", "const":
+		return v.text
+	case "byte":
+		if allowByte {
+			return "(Z.of_N " + v.text + ")"
+		}
+	}
+	t.fail(n, "an int or rune expression is expected, not %s", v.kind)
+	return "0"
+}
+
+func (t *gqTr) asN(n ast.Node, v gqVal) string {
+	switch v.kind {
+	case "byte":
+		return v.text
+	case "const":
+		if v.ntxt != "" {
+			return v.ntxt
+		}
+	}
+	t.fail(n, "a byte expression is expected, not %s", v.kind)
+	return "0%N"
+}
+
+func (t *gqTr) asBytes(n ast.Node, v gqVal) string {
+	if v.kind == "bytes" {
+		return v.text
+	}
+	if v.kind == "nil" {
+		return "([] : bytes)"
+	}
+	t.fail(n, "a string or []byte expression is expected, not %s", v.kind)
+	return "([] : bytes)"
+}
+
+func (t *gqTr) intExpr(e ast.Expr, c gqCtx, pre *[]string) string {
+	v := t.expr(e, c, pre)
+	if v.kind != "int" && v.kind != "const" {
+		t.fail(e, "an int expression is expected, not %s", v.kind)
+		return "0"
+	}
+	return v.text
+}
+
+func (t *gqTr) boolExpr(e ast.Expr, c gqCtx, pre *[]string) string {
+	v := t.expr(e, c, pre)
+	if v.kind != "bool" {
+		t.fail(e, "a condition is expected")
+		return "false"
+	}
+	return v.text
+}
+
+func (t *gqTr) bytesExpr(e ast.Expr, c gqCtx, pre *[]string) string {
+	return t.asBytes(e, t.expr(e, c, pre))
+}
+
+// packageConst: a package level string constant -> gst_c_<name>
+func (t *gqTr) packageConst(name string) (gqVal, bool) {
+	e, ok := t.p.consts[name]
+	if !ok {
+		return gqVal{}, false
+	}
+	lit, ok := e.(*ast.BasicLit)
+	if !ok || lit.Kind != token.STRING {
+		return gqVal{}, false
+	}
+	s, err := strconv.Unquote(lit.Value)
+	if err != nil {
+		return gqVal{}, false
+	}
+	if _, seen := gqConstText[name]; !seen {
+		gqConstsUsed = append(gqConstsUsed, name)
+		gqConstText[name] = s
+	}
+	return gqVal{text: "gst_c_" + name, kind: "bytes"}, true
+}
+
+func (t *gqTr) expr(e ast.Expr, c gqCtx, pre *[]string) gqVal {
+	bad := gqVal{text: "0", ntxt: "0%N", kind: "const"}
+	switch x := e.(type) {
+	case *ast.ParenExpr:
+		return t.expr(x.X, c, pre)
+	case *ast.BasicLit:
+		switch x.Kind {
+		case token.INT:
+			v, ok := new(big.Int).SetString(x.Value, 0)
+			if !ok {
+				t.fail(e, "integer literal %s", x.Value)
+				return bad
+			}
+			return gqConst(v)
+		case token.CHAR:
+			s := x.Value
+			if len(s) >= 2 && s[0] == '\'' {
+				r, _, _, err := strconv.UnquoteChar(s[1:len(s)-1], '\'')
+				if err == nil {
+					return gqConst(big.NewInt(int64(r)))
+				}
+			}
+			t.fail(e, "character literal %s", x.Value)
+			return bad
+		case token.STRING:
+			s, err := strconv.Unquote(x.Value)
+			if err != nil {
+				t.fail(e, "string literal %s", x.Value)
+				return bad
+			}
+			return gqVal{text: gqBytesLit(s), kind: "bytes"}
+		}
+	case *ast.Ident:
+		switch x.Name {
+		case "true", "false":
+			if _, sh := c.lookup(x.Name); !sh {
+				return gqVal{text: x.Name, kind: "bool"}
+			}
+		case "nil":
+			if _, sh := c.lookup(x.Name); !sh {
+				return gqVal{text: "([] : bytes)", kind: "nil"}
+			}
+		}
+		if v, ok := c.lookup(x.Name); ok {
+			if v.kind == "ptr" {
+				t.fail(e, "the pointer %s may only be dereferenced", x.Name)
+				return bad
+			}
+			return gqVal{text: "v_" + v.name, kind: v.kind}
+		}
+		if v, ok := t.packageConst(x.Name); ok {
+			return v
+		}
+		t.fail(e, "unknown identifier %s", x.Name)
+		return bad
+	case *ast.SelectorExpr:
+		if id, ok := x.X.(*ast.Ident); ok && id.Name == "utf8" {
+			if _, sh := c.lookup("utf8"); !sh {
+				switch x.Sel.Name {
+				case "RuneSelf":
+					return gqVal{text: "(Z.of_N rune_self)", ntxt: "rune_self", kind: "const"}
+				case "RuneError":
+					return gqVal{text: "(Z.of_N rune_error)", ntxt: "rune_error", kind: "const"}
+				case "UTFMax":
+					return gqVal{text: "(Z.of_nat utf_max)", ntxt: "(N.of_nat utf_max)", kind: "const"}
+				}
+			}
+		}
+	case *ast.StarExpr:
+		if id, ok := x.X.(*ast.Ident); ok {
+			if v, ok := c.lookup(id.Name); ok && v.kind == "ptr" {
+				return gqVal{text: "v_" + v.name, kind: "bytes"}
+			}
+		}
+	case *ast.UnaryExpr:
+		if cl, ok := x.X.(*ast.CompositeLit); ok && x.Op == token.AND {
+			return t.matcherLit(cl, c, pre)
+		}
+		a := t.expr(x.X, c, pre)
+		switch {
+		case x.Op == token.NOT && a.kind == "bool":
+			return gqVal{text: "(negb " + a.text + ")", kind: "bool"}
+		case x.Op == token.SUB && a.kind == "int":
+			return gqVal{text: "(- " + a.text + ")", kind: "int"}
+		}
+	case *ast.BinaryExpr:
+		return t.binary(x, c, pre)
+	case *ast.IndexExpr:
+		s := t.bytesExpr(x.X, c, pre)
+		iv := t.expr(x.Index, c, pre)
+		i := t.asZ(x.Index, iv, true)
+		if pre == nil {
+			t.fail(e, "an index expression cannot be evaluated at this place")
+			return bad
+		}
+		tmp := t.tmp()
+		*pre = append(*pre, "do "+tmp+" <- gst_index "+s+" "+i+";\n")
+		return gqVal{text: tmp, kind: "byte"}
+	case *ast.SliceExpr:
+		if x.Slice3 {
+			break
+		}
+		s := t.bytesExpr(x.X, c, pre)
+		if pre == nil {
+			t.fail(e, "a slice expression cannot be evaluated at this place")
+			return bad
+		}
+		var call string
+		switch {
+		case x.Low != nil && x.High != nil:
+			call = "gst_slice " + s + " " + t.intExpr(x.Low, c, pre) + " " + t.intExpr(x.High, c, pre)
+		case x.Low != nil:
+			call = "gst_slice_from " + s + " " + t.intExpr(x.Low, c, pre)
+		case x.High != nil:
+			call = "gst_slice_to " + s + " " + t.intExpr(x.High, c, pre)
+		default:
+			return gqVal{text: s, kind: "bytes"}
+		}
+		tmp := t.tmp()
+		*pre = append(*pre, "do "+tmp+" <- "+call+";\n")
+		return gqVal{text: tmp, kind: "bytes"}
+	case *ast.CallExpr:
+		return t.call(x, c, pre)
+	}
+	t.fail(e, "expression not understood: %s", t.src(e))
+	return bad
+}
+
+func (t *gqTr) binary(x *ast.BinaryExpr, c gqCtx, pre *[]string) gqVal {
+	bad := gqVal{text: "false", kind: "bool"}
+	if x.Op == token.LAND || x.Op == token.LOR {
+		a := t.boolExpr(x.X, c, pre)
+		var pre2 []string
+		b := t.boolExpr(x.Y, c, &pre2)
+		if len(pre2) > 0 {
+			t.fail(x.Y, "an operation that can panic to the right of %s", x.Op)
+		}
+		op := " && "
+		if x.Op == token.LOR {
+			op = " || "
+		}
+		return gqVal{text: "(" + a + op + b + ")", kind: "bool"}
+	}
+	a := t.expr(x.X, c, pre)
+	b := t.expr(x.Y, c, pre)
+	// comparison with nil
+	if (a.kind == "nil" && b.kind == "bytes") || (a.kind == "bytes" && b.kind == "nil") {
+		s := a.text
+		if a.kind == "nil" {
+			s = b.text
+		}
+		switch x.Op {
+		case token.EQL:
+			return gqVal{text: "(gst_isnil " + s + ")", kind: "bool"}
+		case token.NEQ:
+			return gqVal{text: "(negb (gst_isnil " + s + "))", kind: "bool"}
+		}
+	}
+	if a.kind == "bytes" && b.kind == "bytes" {
+		switch x.Op {
+		case token.ADD:
+			return gqVal{text: "(" + a.text + " ++ " + b.text + ")", kind: "bytes"}
+		case token.EQL:
+			return gqVal{text: "(bytes_eqb " + a.text + " " + b.text + ")", kind: "bool"}
+		case token.NEQ:
+			return gqVal{text: "(negb (bytes_eqb " + a.text + " " + b.text + "))", kind: "bool"}
+		}
+	}
+	if (a.kind == "error" && b.kind == "nil") || (a.kind == "nil" && b.kind == "error") {
+		e := a.text
+		if a.kind == "nil" {
+			e = b.text
+		}
+		switch x.Op {
+		case token.NEQ:
+			return gqVal{text: e, kind: "bool"}
+		case token.EQL:
+			return gqVal{text: "(negb " + e + ")", kind: "bool"}
+		}
+	}
+	if !gqIsNum(a.kind) || !gqIsNum(b.kind) {
+		t.fail(x, "operands of %s not understood: %s", x.Op, t.src(x))
+		return bad
+	}
+	kind := a.kind
+	if kind == "const" {
+		kind = b.kind
+	}
+	if b.kind != "const" && b.kind != kind {
+		t.fail(x, "operands of different types (%s, %s): %s", a.kind, b.kind, t.src(x))
+		return bad
+	}
+	if kind == "const" {
+		t.fail(x, "constant expression %s (write its value)", t.src(x))
+		return bad
+	}
+	inN := kind == "byte"
+	var l, r string
+	if inN {
+		l, r = t.asN(x.X, a), t.asN(x.Y, b)
+	} else {
+		l, r = t.asZ(x.X, a, false), t.asZ(x.Y, b, false)
+	}
+	cmp := func(s string) gqVal {
+		if inN {
+			return gqVal{text: "(" + s + ")%N", kind: "bool"}
+		}
+		return gqVal{text: "(" + s + ")", kind: "bool"}
+	}
+	switch x.Op {
+	case token.ADD, token.SUB, token.MUL:
+		if kind != "int" {
+			t.fail(x, "%s on a %s would have to wrap", x.Op, kind)
+			return bad
+		}
+		return gqVal{text: "(" + l + " " + x.Op.String() + " " + r + ")", kind: "int"}
+	case token.SHR:
+		if b.kind != "const" {
+			t.fail(x, "shift by a non-constant")
+			return bad
+		}
+		if inN {
+			return gqVal{text: "(N.shiftr " + l + " " + r + ")", kind: kind}
+		}
+		return gqVal{text: "(Z.shiftr " + l + " " + r + ")", kind: kind}
+	case token.AND:
+		if inN {
+			return gqVal{text: "(N.land " + l + " " + r + ")", kind: kind}
+		}
+		return gqVal{text: "(Z.land " + l + " " + r + ")", kind: kind}
+	case token.LSS:
+		return cmp(l + " <? " + r)
+	case token.LEQ:
+		return cmp(l + " <=? " + r)
+	case token.GTR:
+		return cmp(r + " <? " + l)
+	case token.GEQ:
+		return cmp(r + " <=? " + l)
+	case token.EQL:
+		return cmp(l + " =? " + r)
+	case token.NEQ:
+		v := cmp(l + " =? " + r)
+		return gqVal{text: "(negb " + v.text + ")", kind: "bool"}
+	}
+	t.fail(x, "operator %s", x.Op)
+	return bad
+}
+
+func (t *gqTr) call(x *ast.CallExpr, c gqCtx, pre *[]string) gqVal {
+	bad := gqVal{text: "0", ntxt: "0%N", kind: "const"}
+	shadow := func(n string) bool { _, sh := c.lookup(n); return sh }
+	if id, ok := x.Fun.(*ast.Ident); ok && !shadow(id.Name) {
+		switch id.Name {
+		case "len":
+			if len(x.Args) == 1 {
+				return gqVal{text: "(gst_len " + t.bytesExpr(x.Args[0], c, pre) + ")", kind: "int"}
+			}
+		case "byte":
+			if len(x.Args) == 1 {
+				a := t.expr(x.Args[0], c, pre)
+				switch a.kind {
+				case "int", "rune":
+					return gqVal{text: "(gst_byte " + a.text + ")", kind: "byte"}
+				case "byte":
+					return a
+				}
+			}
+		case "append":
+			if len(x.Args) == 2 {
+				s := t.bytesExpr(x.Args[0], c, pre)
+				a := t.expr(x.Args[1], c, pre)
+				if x.Ellipsis != token.NoPos {
+					return gqVal{text: "(" + s + " ++ " + t.asBytes(x.Args[1], a) + ")", kind: "bytes"}
+				}
+				return gqVal{text: "(" + s + " ++ [" + t.asN(x.Args[1], a) + "])", kind: "bytes"}
+			}
+		case "make":
+			if len(x.Args) >= 2 && len(x.Args) <= 3 && t.src(x.Args[0]) == "[]byte" {
+				if pre == nil {
+					break
+				}
+				n := t.intExpr(x.Args[1], c, pre)
+				cp := n
+				if len(x.Args) == 3 {
+					cp = t.intExpr(x.Args[2], c, pre)
+				}
+				tmp := t.tmp()
+				*pre = append(*pre, "do "+tmp+" <- gst_make "+n+" "+cp+";\n")
+				return gqVal{text: tmp, kind: "bytes"}
+			}
+		case "UnsafeBytesToString":
+			if len(x.Args) == 1 {
+				return gqVal{text: t.bytesExpr(x.Args[0], c, pre), kind: "bytes"}
+			}
+		}
+		if g, ok := gqFuncs[id.Name]; ok {
+			if !g.done {
+				t.fail(x, "%s is called before it is translated (order of gqSpecs)", g.goName)
+				return bad
+			}
+			if len(g.ptrs) > 0 || len(g.results) != 1 || len(x.Args) != len(g.params) || pre == nil {
+				t.fail(x, "call of %s in a form that is not understood", g.goName)
+				return bad
+			}
+			parts := []string{g.coq, "fuel'"}
+			for i, a := range x.Args {
+				v := t.expr(a, c, pre)
+				switch g.params[i].kind {
+				case "bytes":
+					parts = append(parts, t.asBytes(a, v))
+				case "int":
+					parts = append(parts, t.asZ(a, v, false))
+				default:
+					t.fail(a, "argument type of %s", g.goName)
+				}
+			}
+			tmp := t.tmp()
+			*pre = append(*pre, "do "+tmp+" <- "+strings.Join(parts, " ")+";\n")
+			return gqVal{text: tmp, kind: g.results[0]}
+		}
+	}
+	for _, lib := range []struct{ pkg, fn, coq, kind string }{
+		{"strings", "HasPrefix", "has_prefix", "bool"}, {"strings", "HasSuffix", "has_suffix", "bool"},
+		{"strings", "TrimPrefix", "gst_TrimPrefix", "bytes"}, {"strings", "TrimSuffix", "gst_TrimSuffix", "bytes"},
+	} {
+		if ce, ok := gqIsCall(x, lib.pkg, lib.fn); ok && len(ce.Args) == 2 && !shadow(lib.pkg) {
+			a := t.bytesExpr(ce.Args[0], c, pre)
+			b := t.bytesExpr(ce.Args[1], c, pre)
+			return gqVal{text: "(" + lib.coq + " " + a + " " + b + ")", kind: lib.kind}
+		}
+	}
+	if ce, ok := gqIsCall(x, "strings", "ToUpper"); ok && len(ce.Args) == 1 && !shadow("strings") {
+		return gqVal{text: "(str_upper " + t.bytesExpr(ce.Args[0], c, pre) + ")", kind: "bytes"}
+	}
+	if ce, ok := gqIsCall(x, "regexp", "QuoteMeta"); ok && len(ce.Args) == 1 && !shadow("regexp") {
+		return gqVal{text: "(quote_meta " + t.bytesExpr(ce.Args[0], c, pre) + ")", kind: "bytes"}
+	}
+	if ce, ok := gqIsCall(x, "unicode", "ToUpper"); ok && len(ce.Args) == 1 && !shadow("unicode") {
+		a := t.expr(ce.Args[0], c, pre)
+		if a.kind == "rune" {
+			return gqVal{text: "(upper " + a.text + ")", kind: "rune"}
+		}
+	}
+	if ce, ok := gqIsCall(x, "utf8", "RuneLen"); ok && len(ce.Args) == 1 && !shadow("utf8") {
+		a := t.expr(ce.Args[0], c, pre)
+		if a.kind == "rune" {
+			return gqVal{text: "(rune_len " + a.text + ")", kind: "int"}
+		}
+	}
+	t.fail(x, "call not understood: %s", t.src(x))
+	return bad
+}
+
+// matcherLit: &T{f: e, ..} with T a struct type of bytes-like fields -> (gst_T e ..), fields in declaration order
+func (t *gqTr) matcherLit(cl *ast.CompositeLit, c gqCtx, pre *[]string) gqVal {
+	bad := gqVal{text: "gst_nil_matcher", kind: "matcher"}
+	id, ok := cl.Type.(*ast.Ident)
+	if !ok {
+		t.fail(cl, "composite literal of a type that is not understood")
+		return bad
+	}
+	fields, ok := t.structFields(id.Name)
+	if !ok {
+		t.fail(cl, "%s is not a struct of string / []byte / *regexp.Regexp fields", id.Name)
+		return bad
+	}
+	if old, seen := gqMatcherFields[id.Name]; !seen {
+		gqMatcherTypes = append(gqMatcherTypes, id.Name)
+		gqMatcherFields[id.Name] = fields
+	} else if strings.Join(old, ",") != strings.Join(fields, ",") {
+		t.fail(cl, "%s: inconsistent fields", id.Name)
+	}
+	vals := map[string]string{}
+	for _, e := range cl.Elts {
+		kv, ok := e.(*ast.KeyValueExpr)
+		if !ok {
+			t.fail(e, "composite literal without field names")
+			return bad
+		}
+		k, ok := kv.Key.(*ast.Ident)
+		if !ok {
+			t.fail(e, "composite literal key")
+			return bad
+		}
+		v := t.expr(kv.Value, c, pre)
+		if v.kind != "bytes" && v.kind != "regexp" {
+			t.fail(kv.Value, "field %s is given a %s", k.Name, v.kind)
+		}
+		vals[k.Name] = v.text
+	}
+	parts := []string{"gst_" + id.Name}
+	for _, f := range fields {
+		v, ok := vals[f]
+		if !ok {
+			t.fail(cl, "field %s of %s is left at its zero value", f, id.Name)
+			v = "([] : bytes)"
+		}
+		delete(vals, f)
+		parts = append(parts, v)
+	}
+	if len(vals) > 0 {
+		t.fail(cl, "unknown field in a %s literal", id.Name)
+	}
+	return gqVal{text: "(" + strings.Join(parts, " ") + ")", kind: "matcher"}
+}
+
+// ------------------------------------------------------------------ statements
+
+func gqRestrict(inner, outer gqCtx) gqCtx {
+	r := outer
+	r.vars = inner.vars[:len(outer.vars)]
+	return r
+}
+
+// outerAssigned: the variables of c (in order) assigned below the nodes.
+func (t *gqTr) outerAssigned(c gqCtx, nodes ...ast.Node) []gqVar {
+	names := map[string]bool{}
+	for _, n := range nodes {
+		for k := range gqAssigned(n) {
+			names[k] = true
+		}
+	}
+	var out []gqVar
+	for _, v := range c.vars {
+		if names[v.name] {
+			out = append(out, v)
+		}
+	}
+	return out
+}
+
+func gqPat(vs []gqVar) string {
+	var p []string
+	for _, v := range vs {
+		p = append(p, "v_"+v.name)
+	}
+	return gsTuple(p)
+}
+
+func gqPatType(vs []gqVar) string {
+	var p []string
+	for _, v := range vs {
+		p = append(p, gqCoqType(v.kind))
+	}
+	return gsTypeTuple(p)
+}
+
+func (t *gqTr) declare(st ast.Node, c *gqCtx, name, kind string) {
+	if _, dup := c.lookup(name); dup {
+		t.fail(st, "%s shadows / redeclares a variable", name)
+	}
+	if _, isF := gqFuncs[name]; isF {
+		t.fail(st, "%s shadows a function", name)
+	}
+	c.vars = append(c.vars, gqVar{name, kind})
+}
+
+// bind: let v_x := e in  for a value of the kind the variable has
+func (t *gqTr) bind(st ast.Node, name string, want string, v gqVal) string {
+	var txt string
+	switch want {
+	case "int", "rune":
+		if v.kind != want && v.kind != "const" {
+			t.fail(st, "%s (%s) is assigned a %s", name, want, v.kind)
+		}
+		txt = t.asZ(st, v, false)
+	case "byte":
+		txt = t.asN(st, v)
+	case "bool":
+		if v.kind != "bool" {
+			t.fail(st, "%s (bool) is assigned a %s", name, v.kind)
+		}
+		txt = v.text
+	case "bytes", "ptr":
+		txt = t.asBytes(st, v)
+	default:
+		t.fail(st, "variable %s of a type that is not understood", name)
+	}
+	return "let v_" + name + " := " + txt + " in\n"
+}
+
+// simple: a statement without control flow, as a prefix "let .. in\n" / "do .. <- ..;\n"; c is extended by the
+// variables it declares.  ok = false when st is not such a statement.
+func (t *gqTr) simple(st ast.Stmt, c *gqCtx) (string, bool) {
+	var pre []string
+	wrap := func(s string) string { return strings.Join(pre, "") + s }
+	switch x := st.(type) {
+	case *ast.DeclStmt:
+		gd, ok := x.Decl.(*ast.GenDecl)
+		if !ok || gd.Tok != token.VAR {
+			return "", false
+		}
+		out := ""
+		for _, sp := range gd.Specs {
+			vs := sp.(*ast.ValueSpec)
+			if len(vs.Values) != 0 || vs.Type == nil {
+				t.fail(st, "only `var x int` and `var x []byte` are understood")
+				return "", true
+			}
+			ty := t.src(vs.Type)
+			for _, n := range vs.Names {
+				switch ty {
+				case "int":
+					t.declare(st, c, n.Name, "int")
+					out += "let v_" + n.Name + " := 0 in\n"
+				case "[]byte":
+					t.declare(st, c, n.Name, "bytes")
+					out += "let v_" + n.Name + " := ([] : bytes) in\n"
+				default:
+					t.fail(st, "only `var x int` and `var x []byte` are understood")
+					return "", true
+				}
+			}
+		}
+		return out, true
+	case *ast.IncDecStmt:
+		id, ok := x.X.(*ast.Ident)
+		if !ok {
+			return "", false
+		}
+		v, known := c.lookup(id.Name)
+		if !known || v.kind != "int" {
+			t.fail(st, "%s is not an int variable", id.Name)
+			return "", true
+		}
+		op := " + 1"
+		if x.Tok == token.DEC {
+			op = " - 1"
+		}
+		return "let v_" + id.Name + " := (v_" + id.Name + op + ") in\n", true
+	case *ast.ExprStmt:
+		if ce, ok := gqIsCall(x.X, "", "copy"); ok && len(ce.Args) == 2 {
+			return t.copyStmt(st, ce, "", token.ASSIGN, c)
+		}
+		t.fail(st, "statement not understood: %s", t.src(st))
+		return "", true
+	case *ast.AssignStmt:
+		// *p = e
+		if len(x.Lhs) == 1 && len(x.Rhs) == 1 {
+			if se, ok := x.Lhs[0].(*ast.StarExpr); ok {
+				id, isId := se.X.(*ast.Ident)
+				if !isId || x.Tok != token.ASSIGN {
+					t.fail(st, "assignment through a pointer in a form that is not understood")
+					return "", true
+				}
+				v, known := c.lookup(id.Name)
+				if !known || v.kind != "ptr" {
+					t.fail(st, "%s is not a *[]byte argument", id.Name)
+					return "", true
+				}
+				e := t.bytesExpr(x.Rhs[0], *c, &pre)
+				return wrap("let v_" + id.Name + " := " + e + " in\n"), true
+			}
+			// b[i] = e
+			if ie, ok := x.Lhs[0].(*ast.IndexExpr); ok {
+				id, isId := ie.X.(*ast.Ident)
+				if !isId || x.Tok != token.ASSIGN {
+					t.fail(st, "indexed assignment in a form that is not understood")
+					return "", true
+				}
+				v, known := c.lookup(id.Name)
+				if !known || v.kind != "bytes" {
+					t.fail(st, "%s is not a []byte variable", id.Name)
+					return "", true
+				}
+				iv := t.expr(ie.Index, *c, &pre)
+				i := t.asZ(ie.Index, iv, true)
+				e := t.asN(x.Rhs[0], t.expr(x.Rhs[0], *c, &pre))
+				return wrap("do v_" + id.Name + " <- gst_store v_" + id.Name + " " + i + " " + e + ";\n"), true
+			}
+		}
+		lhs := make([]string, len(x.Lhs))
+		for i, l := range x.Lhs {
+			id, ok := l.(*ast.Ident)
+			if !ok {
+				t.fail(st, "assignment to something that is not a variable")
+				return "", true
+			}
+			lhs[i] = id.Name
+		}
+		if len(x.Rhs) == 1 {
+			// r, w := utf8.DecodeRuneInString(e)
+			if ce, ok := gqIsCall(x.Rhs[0], "utf8", "DecodeRuneInString"); ok {
+				if len(lhs) != 2 || len(ce.Args) != 1 || (x.Tok != token.DEFINE && x.Tok != token.ASSIGN) {
+					t.fail(st, "utf8.DecodeRuneInString in a form that is not understood")
+					return "", true
+				}
+				arg := t.bytesExpr(ce.Args[0], *c, &pre)
+				kinds := []string{"rune", "int"}
+				var pat []string
+				var decl []gqVar
+				for i, n := range lhs {
+					if n == "_" {
+						pat = append(pat, "_")
+						continue
+					}
+					v, known := c.lookup(n)
+					if x.Tok == token.DEFINE && !known {
+						decl = append(decl, gqVar{n, kinds[i]})
+					} else if !known {
+						t.fail(st, "unknown variable %s", n)
+					} else if x.Tok == token.DEFINE {
+						t.fail(st, "%s shadows / redeclares a variable", n)
+					} else if v.kind != kinds[i] {
+						t.fail(st, "%s has the wrong type for this result", n)
+					}
+					pat = append(pat, "v_"+n)
+				}
+				for _, d := range decl {
+					t.declare(st, c, d.name, d.kind)
+				}
+				return wrap("let '(" + strings.Join(pat, ", ") + ") := gst_DecodeRuneInString " + arg + " in\n"), true
+			}
+			// r, err := regexp.Compile(e): r is the source text, err the flag "did not compile"
+			if ce, ok := gqIsCall(x.Rhs[0], "regexp", "Compile"); ok {
+				if len(lhs) != 2 || len(ce.Args) != 1 || x.Tok != token.DEFINE || lhs[0] == "_" || lhs[1] == "_" {
+					t.fail(st, "regexp.Compile in a form that is not understood")
+					return "", true
+				}
+				arg := t.bytesExpr(ce.Args[0], *c, &pre)
+				out := wrap("let v_" + lhs[0] + " := " + arg + " in\nlet v_" + lhs[1] + " := negb (re_compile " + arg + ") in\n")
+				t.declare(st, c, lhs[0], "regexp")
+				t.declare(st, c, lhs[1], "error")
+				return out, true
+			}
+			// n = copy(dst, src)
+			if ce, ok := gqIsCall(x.Rhs[0], "", "copy"); ok && len(ce.Args) == 2 && len(lhs) == 1 {
+				return t.copyStmt(st, ce, lhs[0], x.Tok, c)
+			}
+			// n += utf8.EncodeRune(b[off:], r)
+			if b, off, r, ok := gqEncodeCall(x.Rhs[0]); ok {
+				if len(lhs) != 1 || x.Tok != token.ADD_ASSIGN {
+					t.fail(st, "utf8.EncodeRune is only understood as n += utf8.EncodeRune(b[off:], r)")
+					return "", true
+				}
+				nv, known := c.lookup(lhs[0])
+				bv, knownB := c.lookup(b.Name)
+				if !known || nv.kind != "int" || !knownB || bv.kind != "bytes" {
+					t.fail(st, "utf8.EncodeRune: %s must be an int and %s a []byte variable", lhs[0], b.Name)
+					return "", true
+				}
+				o := t.intExpr(off, *c, &pre)
+				rv := t.expr(r, *c, &pre)
+				if rv.kind != "rune" {
+					t.fail(r, "a rune is expected")
+				}
+				return wrap("do v_" + b.Name + " <- gst_encode_at v_" + b.Name + " " + o + " " + rv.text + ";\n" +
+					"let v_" + lhs[0] + " := (v_" + lhs[0] + " + gst_encode_n " + rv.text + ") in\n"), true
+			}
+		}
+		if len(x.Rhs) != len(lhs) {
+			t.fail(st, "assignment with %d left and %d right sides", len(lhs), len(x.Rhs))
+			return "", true
+		}
+		switch x.Tok {
+		case token.DEFINE, token.ASSIGN:
+			if len(lhs) > 1 {
+				t.fail(st, "parallel assignment")
+				return "", true
+			}
+			n := lhs[0]
+			v := t.expr(x.Rhs[0], *c, &pre)
+			old, known := c.lookup(n)
+			if x.Tok == token.DEFINE {
+				kind := v.kind
+				if kind == "const" {
+					kind = "int"
+				}
+				if kind == "nil" {
+					t.fail(st, "%s := nil", n)
+					return "", true
+				}
+				out := wrap(t.bind(st, n, kind, v))
+				t.declare(st, c, n, kind)
+				return out, true
+			}
+			if !known {
+				t.fail(st, "unknown variable %s", n)
+				return "", true
+			}
+			if old.kind == "ptr" {
+				t.fail(st, "the pointer %s itself is assigned", n)
+				return "", true
+			}
+			return wrap(t.bind(st, n, old.kind, v)), true
+		case token.ADD_ASSIGN, token.SUB_ASSIGN, token.MUL_ASSIGN:
+			ops := map[token.Token]token.Token{token.ADD_ASSIGN: token.ADD, token.SUB_ASSIGN: token.SUB, token.MUL_ASSIGN: token.MUL}
+			if len(lhs) != 1 {
+				t.fail(st, "assignment operator %s", x.Tok)
+				return "", true
+			}
+			old, known := c.lookup(lhs[0])
+			if !known || old.kind != "int" {
+				t.fail(st, "%s is not an int variable", lhs[0])
+				return "", true
+			}
+			v := t.expr(&ast.BinaryExpr{X: x.Lhs[0], Op: ops[x.Tok], Y: x.Rhs[0], OpPos: x.TokPos}, *c, &pre)
+			return wrap(t.bind(st, lhs[0], "int", v)), true
+		default:
+			t.fail(st, "assignment operator %s", x.Tok)
+			return "", true
+		}
+	}
+	return "", false
+}
+
+// [n =] copy(dst, src)
+func (t *gqTr) copyStmt(st ast.Stmt, ce *ast.CallExpr, n string, tok token.Token, c *gqCtx) (string, bool) {
+	var pre []string
+	dst, ok := ce.Args[0].(*ast.Ident)
+	if !ok {
+		t.fail(st, "copy into something that is not a variable")
+		return "", true
+	}
+	dv, known := c.lookup(dst.Name)
+	if !known || dv.kind != "bytes" {
+		t.fail(st, "copy: %s is not a []byte variable", dst.Name)
+		return "", true
+	}
+	src := t.bytesExpr(ce.Args[1], *c, &pre)
+	out := strings.Join(pre, "")
+	if n != "" && n != "_" {
+		nv, knownN := c.lookup(n)
+		switch {
+		case tok == token.DEFINE && !knownN:
+			t.declare(st, c, n, "int")
+		case tok == token.ASSIGN && knownN && nv.kind == "int":
+		default:
+			t.fail(st, "copy: the count is assigned in a form that is not understood")
+			return "", true
+		}
+		out += "let v_" + n + " := gst_copy_n v_" + dst.Name + " " + src + " in\n"
+	}
+	out += "let v_" + dst.Name + " := gst_copy v_" + dst.Name + " " + src + " in\n"
+	return out, true
+}
+
+// switchToIf: switch x { case a, b: ..; default: .. } as an if chain
+func (t *gqTr) switchToIf(x *ast.SwitchStmt, c gqCtx) (ast.Stmt, bool) {
+	if x.Init != nil || x.Tag == nil {
+		t.fail(x, "switch with an init statement or without a tag")
+		return nil, false
+	}
+	tag, ok := x.Tag.(*ast.Ident)
+	if !ok {
+		t.fail(x, "the tag of a switch must be a variable")
+		return nil, false
+	}
+	if _, known := c.lookup(tag.Name); !known {
+		t.fail(x, "the tag of a switch must be a variable")
+		return nil, false
+	}
+	var clauses []*ast.CaseClause
+	for _, s := range x.Body.List {
+		clauses = append(clauses, s.(*ast.CaseClause))
+	}
+	var chain ast.Stmt
+	for i := len(clauses) - 1; i >= 0; i-- {
+		cl := clauses[i]
+		bodyBad := false
+		for _, s := range cl.Body {
+			ast.Inspect(s, func(m ast.Node) bool {
+				switch y := m.(type) {
+				case *ast.BranchStmt:
+					if y.Tok == token.BREAK || y.Tok == token.FALLTHROUGH || y.Tok == token.GOTO {
+						bodyBad = true
+					}
+				case *ast.ForStmt, *ast.RangeStmt, *ast.SwitchStmt:
+					bodyBad = true // kept simple: no loops or switches inside a case
+				}
+				return true
+			})
+		}
+		if bodyBad {
+			t.fail(cl, "break / fallthrough / a loop inside a case")
+			return nil, false
+		}
+		block := &ast.BlockStmt{Lbrace: cl.Colon, List: cl.Body, Rbrace: cl.End()}
+		if cl.List == nil {
+			if i != len(clauses)-1 {
+				t.fail(cl, "default must be the last clause")
+				return nil, false
+			}
+			chain = block
+			continue
+		}
+		var cond ast.Expr
+		for _, v := range cl.List {
+			switch v.(type) {
+			case *ast.BasicLit, *ast.SelectorExpr:
+			default:
+				t.fail(v, "a case must be a constant")
+				return nil, false
+			}
+			eq := &ast.BinaryExpr{X: tag, OpPos: v.Pos(), Op: token.EQL, Y: v}
+			if cond == nil {
+				cond = eq
+			} else {
+				cond = &ast.BinaryExpr{X: cond, OpPos: v.Pos(), Op: token.LOR, Y: eq}
+			}
+		}
+		chain = &ast.IfStmt{If: cl.Pos(), Cond: cond, Body: block, Else: chain}
+	}
+	if chain == nil {
+		t.fail(x, "empty switch")
+		return nil, false
+	}
+	return chain, true
+}
+
+func (t *gqTr) stmts(list []ast.Stmt, c gqCtx, k func(gqCtx) string) string {
+	if len(list) == 0 {
+		return k(c)
+	}
+	st, rest := list[0], list[1:]
+	memo, have := "", false
+	next := func(c2 gqCtx) string {
+		if !have {
+			memo, have = t.stmts(rest, c2, k), true
+		}
+		return memo
+	}
+	switch x := st.(type) {
+	case *ast.ReturnStmt:
+		if len(rest) > 0 {
+			t.fail(rest[0], "statement after return")
+		}
+		if c.inLoop || c.ret == nil {
+			t.fail(st, "return inside a loop")
+			return "Panic"
+		}
+		var pre []string
+		var res []gqVal
+		results := x.Results
+		if t.f.errRes {
+			// return x, nil -> Ok x;  return nil, e (e not the literal nil: a non-nil error value) -> Fail
+			if len(results) != len(t.f.results)+1 {
+				t.fail(st, "return with %d values", len(results))
+				return "Panic"
+			}
+			last := results[len(results)-1]
+			if id, ok := last.(*ast.Ident); !ok || id.Name != "nil" {
+				ce, isCall := gqIsCall(last, "qerrors", "Propagate")
+				first, firstNil := results[0].(*ast.Ident)
+				if !isCall || len(ce.Args) != 2 || !firstNil || first.Name != "nil" {
+					t.fail(st, "an error return must be `return nil, qerrors.Propagate(.., err)`")
+					return "Panic"
+				}
+				return "Fail"
+			}
+			results = results[:len(results)-1]
+		}
+		for _, r := range results {
+			res = append(res, t.expr(r, c, &pre))
+		}
+		return strings.Join(pre, "") + c.ret(res)
+	case *ast.BranchStmt:
+		if x.Label != nil || (x.Tok != token.BREAK && x.Tok != token.CONTINUE) || c.brk == nil {
+			t.fail(st, "%s is not understood here", x.Tok)
+			return "Panic"
+		}
+		if len(rest) > 0 {
+			t.fail(rest[0], "statement after %s", x.Tok)
+		}
+		if x.Tok == token.BREAK {
+			return c.brk()
+		}
+		return c.cont()
+	case *ast.BlockStmt:
+		return t.stmts(x.List, c, func(c2 gqCtx) string { return next(gqRestrict(c2, c)) })
+	case *ast.SwitchStmt:
+		chain, ok := t.switchToIf(x, c)
+		if !ok {
+			return "Panic"
+		}
+		return t.stmts(append([]ast.Stmt{chain}, rest...), c, k)
+	case *ast.IfStmt:
+		if x.Init != nil {
+			t.fail(st, "if with an init statement")
+			return "Panic"
+		}
+		var pre []string
+		ct := t.boolExpr(x.Cond, c, &pre)
+		head := strings.Join(pre, "") + "if " + ct + " then\n"
+		var elseList []ast.Stmt
+		switch e := x.Else.(type) {
+		case nil:
+		case *ast.BlockStmt:
+			elseList = e.List
+		default:
+			elseList = []ast.Stmt{e}
+		}
+		if !gqEscapes(x) {
+			var nodes []ast.Node
+			nodes = append(nodes, x.Body)
+			if x.Else != nil {
+				nodes = append(nodes, x.Else)
+			}
+			pat := t.outerAssigned(c, nodes...)
+			if len(pat) == 0 {
+				t.fail(st, "an if that assigns nothing")
+				return "Panic"
+			}
+			okPat := "Ok " + gqPat(pat)
+			thenT := t.stmts(x.Body.List, c, func(gqCtx) string { return okPat })
+			elseT := t.stmts(elseList, c, func(gqCtx) string { return okPat })
+			inner := head + gsIndent(thenT) + "\nelse\n" + gsIndent(elseT)
+			return "do " + gqPat(pat) + " <- (\n" + gsIndent(inner) + ");\n" + next(c)
+		}
+		thenT := t.stmts(x.Body.List, c, func(c2 gqCtx) string { return next(gqRestrict(c2, c)) })
+		elseT := t.stmts(elseList, c, func(c2 gqCtx) string { return next(gqRestrict(c2, c)) })
+		return head + gsIndent(thenT) + "\nelse\n" + gsIndent(elseT)
+	case *ast.ForStmt:
+		return t.forStmt(x, c, next)
+	case *ast.RangeStmt:
+		return t.rangeStmt(x, c, next)
+	}
+	if text, ok := t.simple(st, &c); ok {
+		return text + next(c)
+	}
+	t.fail(st, "statement not understood: %s", t.src(st))
+	return "Panic"
+}
+
+// loopArgs: the variables of vars that the text mentions, as signature / argument lists.
+func gqLoopArgs(text string, vars []gqVar) (sig, args []string) {
+	for _, v := range vars {
+		if gsMentions(text, "v_"+v.name) {
+			sig = append(sig, "(v_"+v.name+" : "+gqCoqType(v.kind)+")")
+			args = append(args, "v_"+v.name)
+		}
+	}
+	return
+}
+
+func (t *gqTr) forStmt(x *ast.ForStmt, c gqCtx, next func(gqCtx) string) string {
+	if gqContainsReturn(x.Body) {
+		t.fail(x, "return inside a loop")
+		return "Panic"
+	}
+	c1 := c
+	initText := ""
+	if x.Init != nil {
+		txt, ok := t.simple(x.Init, &c1)
+		if !ok {
+			t.fail(x.Init, "loop init statement not understood")
+		}
+		initText = txt
+	}
+	var nodes []ast.Node
+	nodes = append(nodes, x.Body)
+	if x.Post != nil {
+		nodes = append(nodes, x.Post)
+	}
+	res := t.outerAssigned(c, nodes...)
+	if len(res) == 0 {
+		t.fail(x, "a loop that changes nothing")
+		return "Panic"
+	}
+	exit := "Ok " + gqPat(res)
+	cb := c1
+	cb.inLoop = true
+	cb.brk = func() string { return exit }
+	post := func(c2 gqCtx) string {
+		c3 := gqRestrict(c2, cb)
+		txt := ""
+		if x.Post != nil {
+			var ok bool
+			txt, ok = t.simple(x.Post, &c3)
+			if !ok {
+				t.fail(x.Post, "loop post statement not understood")
+			}
+		}
+		return txt + "@REC@"
+	}
+	cb.cont = func() string { return post(cb) }
+	iter := t.stmts(x.Body.List, cb, post)
+	body := iter
+	if x.Cond != nil {
+		var pre []string
+		ct := t.boolExpr(x.Cond, c1, &pre)
+		if len(pre) > 0 {
+			t.fail(x.Cond, "a loop condition that can panic")
+		}
+		body = "if " + ct + " then\n" + gsIndent(iter) + "\nelse\n" + gsIndent(exit)
+	}
+	sig, args := gqLoopArgs(body, c1.vars)
+	name := fmt.Sprintf("%s_loop%d", t.f.coq, len(t.loops)+1)
+	var fsig, recArgs, callArgs []string
+	if gsMentions(body, "fuel'") {
+		fsig = append(fsig, "(fuel' : nat)")
+		recArgs = append(recArgs, "fuel'")
+		callArgs = append(callArgs, "fuel'")
+	}
+	fsig = append(fsig, "(k : nat)")
+	recArgs = append(recArgs, "k'")
+	callArgs = append(callArgs, "fuel'")
+	fsig = append(fsig, sig...)
+	recArgs = append(recArgs, args...)
+	callArgs = append(callArgs, args...)
+	body = strings.ReplaceAll(body, "@REC@", name+" "+strings.Join(recArgs, " "))
+	def := "Fixpoint " + name + " " + strings.Join(fsig, " ") + " {struct k} : outcome " + gqPatType(res) + " :=\n" +
+		"  match k with\n  | O => Panic\n  | S k' =>\n" + gsIndent(gsIndent(body)) + "\n  end.\n"
+	t.loops = append(t.loops, def)
+	return initText + "do " + gqPat(res) + " <- " + name + " " + strings.Join(callArgs, " ") + ";\n" + next(c)
+}
+
+func (t *gqTr) rangeStmt(x *ast.RangeStmt, c gqCtx, next func(gqCtx) string) string {
+	if gqContainsReturn(x.Body) {
+		t.fail(x, "return inside a loop")
+		return "Panic"
+	}
+	if x.Tok != token.DEFINE {
+		t.fail(x, "range without :=")
+		return "Panic"
+	}
+	var pre []string
+	xv := t.expr(x.X, c, &pre)
+	if xv.kind != "bytes" {
+		t.fail(x.X, "range over something that is not a string")
+		return "Panic"
+	}
+	if _, isId := x.X.(*ast.Ident); !isId {
+		t.fail(x.X, "range over something that is not a string variable")
+		return "Panic"
+	}
+	cb := c
+	names := []string{"_", "_"}
+	for i, e := range []ast.Expr{x.Key, x.Value} {
+		if e == nil {
+			continue
+		}
+		id, ok := e.(*ast.Ident)
+		if !ok {
+			t.fail(e, "range variable")
+			return "Panic"
+		}
+		if id.Name == "_" {
+			continue
+		}
+		t.declare(x, &cb, id.Name, []string{"int", "rune"}[i])
+		names[i] = "v_" + id.Name
+	}
+	res := t.outerAssigned(c, x.Body)
+	if len(res) == 0 {
+		t.fail(x, "a loop that changes nothing")
+		return "Panic"
+	}
+	exit := "Ok " + gqPat(res)
+	cb.inLoop = true
+	cb.brk = func() string { return exit }
+	cb.cont = func() string { return "@REC@" }
+	iter := t.stmts(x.Body.List, cb, func(gqCtx) string { return "@REC@" })
+	sig, args := gqLoopArgs(iter+"\n"+exit, c.vars)
+	name := fmt.Sprintf("%s_loop%d", t.f.coq, len(t.loops)+1)
+	var fsig, recArgs, callArgs []string
+	if gsMentions(iter, "fuel'") {
+		fsig = append(fsig, "(fuel' : nat)")
+		recArgs = append(recArgs, "fuel'")
+		callArgs = append(callArgs, "fuel'")
+	}
+	fsig = append(fsig, "(l : list (Z * Z))")
+	recArgs = append(recArgs, "l'")
+	callArgs = append(callArgs, "(gst_range "+xv.text+")")
+	fsig = append(fsig, sig...)
+	recArgs = append(recArgs, args...)
+	callArgs = append(callArgs, args...)
+	iter = strings.ReplaceAll(iter, "@REC@", name+" "+strings.Join(recArgs, " "))
+	def := "Fixpoint " + name + " " + strings.Join(fsig, " ") + " {struct l} : outcome " + gqPatType(res) + " :=\n" +
+		"  match l with\n  | [] => " + exit + "\n  | (" + names[0] + ", " + names[1] + ") :: l' =>\n" + gsIndent(gsIndent(iter)) + "\n  end.\n"
+	t.loops = append(t.loops, def)
+	return strings.Join(pre, "") + "do " + gqPat(res) + " <- " + name + " " + strings.Join(callArgs, " ") + ";\n" + next(c)
+}
+
+// ------------------------------------------------------------------ functions
+
+func gqSignature(p *pkgInfo, f *gqFunc) bool {
+	fd := f.fd
+	if fd.Recv != nil {
+		problem("internal/strings translation, function %s: a method", f.goName)
+		return false
+	}
+	typeOf := func(e ast.Expr) string {
+		var b bytes.Buffer
+		printer.Fprint(&b, p.fset, e)
+		switch b.String() {
+		case "[]byte", "string":
+			return "bytes"
+		case "*[]byte":
+			return "ptr"
+		case "int":
+			return "int"
+		case "bool":
+			return "bool"
+		case "Matcher":
+			return "matcher"
+		case "error":
+			return "error"
+		}
+		return ""
+	}
+	for _, fl := range fd.Type.Params.List {
+		k := typeOf(fl.Type)
+		if k == "" {
+			problem("internal/strings translation, function %s: argument type not understood", f.goName)
+			return false
+		}
+		for _, n := range fl.Names {
+			f.params = append(f.params, gqVar{n.Name, k})
+			if k == "ptr" {
+				f.ptrs = append(f.ptrs, n.Name)
+			}
+		}
+	}
+	if fd.Type.Results != nil {
+		for _, fl := range fd.Type.Results.List {
+			k := typeOf(fl.Type)
+			if k == "error" && len(fl.Names) == 0 && !f.errRes {
+				f.errRes = true
+				continue
+			}
+			if (k != "bytes" && k != "int" && k != "matcher") || len(fl.Names) > 0 || f.errRes {
+				problem("internal/strings translation, function %s: result type not understood", f.goName)
+				return false
+			}
+			f.results = append(f.results, k)
+		}
+	}
+	if len(f.results)+len(f.ptrs) == 0 {
+		problem("internal/strings translation, function %s: no result", f.goName)
+		return false
+	}
+	return true
+}
+
+func (f *gqFunc) resultType() string {
+	var tys []string
+	for _, k := range f.results {
+		tys = append(tys, gqCoqType(k))
+	}
+	for range f.ptrs {
+		tys = append(tys, "bytes")
+	}
+	return "outcome " + gsTypeTuple(tys)
+}
+
+func gqTranslate(p *pkgInfo, f *gqFunc) {
+	t := &gqTr{p: p, f: f}
+	c := gqCtx{}
+	c.vars = append(c.vars, f.params...)
+	c.ret = func(res []gqVal) string {
+		if len(res) != len(f.results) {
+			t.fail(f.fd, "return with %d values, the function has %d results", len(res), len(f.results))
+			return "Panic"
+		}
+		var parts []string
+		for i, r := range res {
+			switch f.results[i] {
+			case "bytes":
+				parts = append(parts, t.asBytes(f.fd, r))
+			case "matcher":
+				if r.kind != "matcher" {
+					t.fail(f.fd, "a matcher is returned as %s", r.kind)
+				}
+				parts = append(parts, r.text)
+			default:
+				parts = append(parts, t.asZ(f.fd, r, false))
+			}
+		}
+		for _, n := range f.ptrs {
+			parts = append(parts, "v_"+n)
+		}
+		return "Ok " + gsTuple(parts)
+	}
+	body := t.stmts(f.fd.Body.List, c, func(c2 gqCtx) string {
+		t.fail(f.fd, "the function can fall off its end")
+		return "Panic"
+	})
+	var sig []string
+	sig = append(sig, "(fuel : nat)")
+	for _, v := range f.params {
+		sig = append(sig, "(v_"+v.name+" : "+gqCoqType(v.kind)+")")
+	}
+	var b strings.Builder
+	fmt.Fprintf(&b, "(* %s\n%s *)\n", gqPkg, gsSource(p, f.fd))
+	for _, l := range t.loops {
+		b.WriteString(l)
+	}
+	fmt.Fprintf(&b, "Definition %s %s : %s :=\n  match fuel with\n  | O => Panic\n  | S fuel' =>\n%s\n  end.\n",
+		f.coq, strings.Join(sig, " "), f.resultType(), gsIndent(gsIndent(body)))
+	f.text = b.String()
+	f.ok = !t.bad
+}
+
+func genStrSer() string {
+	p := loadPkg(gqPkg)
+	for name, want := range gqVocabulary {
+		fd, ok := p.funcs[name]
+		if !ok || fd.Body == nil {
+			problem("internal/strings translation: function %s not found in %s", name, gqPkg)
+			continue
+		}
+		var b bytes.Buffer
+		printer.Fprint(&b, p.fset, fd.Body)
+		if b.String() != want {
+			problem("internal/strings translation: the body of %s is not the one the translation stands for (the identity on the bytes)", name)
+		}
+	}
+	var order []*gqFunc
+	for _, n := range gqSpecs {
+		f := &gqFunc{goName: n, coq: "gst_" + n}
+		gqFuncs[n] = f
+		order = append(order, f)
+	}
+	for _, f := range order {
+		fd, ok := p.funcs[f.goName]
+		if !ok || fd.Body == nil {
+			problem("internal/strings translation: function %s not found in %s", f.goName, gqPkg)
+			continue
+		}
+		f.fd = fd
+		if !gqSignature(p, f) {
+			f.fd = nil
+		}
+	}
+	for _, f := range order {
+		if f.fd != nil {
+			gqTranslate(p, f)
+		}
+		f.done = true
+	}
+	golden := ""
+	if fl := flag.Lookup("golden"); fl != nil && fl.Value.String() != "" {
+		if gb, err := os.ReadFile(filepath.Join(fl.Value.String(), "GenStrSer.v")); err == nil {
+			golden = string(gb)
+		}
+	}
+	var b strings.Builder
+	b.WriteString(gqPreamble)
+	// the package level string constants the functions mention
+	{
+		text := ""
+		for _, n := range gqConstsUsed {
+			text += fmt.Sprintf("(* %s: const %s = %s *)\nDefinition gst_c_%s : bytes := %s.\n", gqPkg, n,
+				strings.ReplaceAll(strconv.Quote(gqConstText[n]), "\"", "'"), n, gqBytesLit(gqConstText[n]))
+		}
+		if old, found := gfGoldenBlock(golden, "gst_constants"); found {
+			// a constant the golden copy has and the current source lacks keeps its old value (FALLBACK)
+			for _, line := range strings.Split(old, "\n") {
+				if strings.HasPrefix(line, "Definition gst_c_") {
+					name := strings.TrimPrefix(strings.Fields(line)[1], "gst_c_")
+					if _, have := gqConstText[name]; !have {
+						text += "(* FALLBACK gst_c_" + name + ": not derivable from the current source; value of the last validated tree *)\n" + line + "\n"
+					}
+				}
+			}
+		}
+		fmt.Fprintf(&b, "(* BEGIN gst_constants *)\n%s(* END gst_constants *)\n\n", text)
+	}
+	{
+		// the Matcher implementations the composite literals of NewMatcher build, from their type declarations
+		text := "(* the structs behind Matcher that NewMatcher builds (a *regexp.Regexp is the text it was compiled from) *)\nInductive gst_Matcher :=\n"
+		for _, n := range gqMatcherTypes {
+			text += "| gst_" + n
+			for _, f := range gqMatcherFields[n] {
+				text += " (" + f + " : bytes)"
+			}
+			text += "\n"
+		}
+		text = strings.TrimRight(text, "\n") + ".\n"
+		if len(gqMatcherTypes) == 0 {
+			if old, found := gfGoldenBlock(golden, "gst_Matcher"); found {
+				text = "(* FALLBACK gst_Matcher: not derivable from the current source; text of the last validated tree *)\n" + old
+			} else {
+				text = "Inductive gst_Matcher := gst_no_matcher.\n"
+			}
+		}
+		fmt.Fprintf(&b, "(* BEGIN gst_Matcher *)\n%s(* END gst_Matcher *)\n\n", text)
+	}
+	b.WriteString("Section GenStrSer.\n(* unicode.ToUpper; strings.ToUpper; regexp.Compile(x) succeeds *)\nVariable upper : Z -> Z.\nVariable str_upper : bytes -> bytes.\nVariable re_compile : bytes -> bool.\n\n")
+	for _, f := range order {
+		text := f.text
+		if !f.ok {
+			old, found := gfGoldenBlock(golden, f.coq)
+			if !found {
+				continue
+			}
+			text = "(* FALLBACK " + f.coq + ": not derivable from the current source; text of the last validated tree *)\n" + old
+		}
+		fmt.Fprintf(&b, "(* BEGIN %s *)\n%s(* END %s *)\n\n", f.coq, text, f.coq)
+	}
+	b.WriteString("End GenStrSer.\n")
+	return b.String()
+}
